@@ -37,6 +37,7 @@ func init() {
 			{Name: "callhist", Run: runCallHist},
 			{Name: "alias", Run: runAlias},
 			{Name: "objstruct", Run: runObjStruct},
+			{Name: "variadic", Run: runVariadic},
 			{Name: "lattice", Run: runLattice},
 			{Name: "sliceref", Run: brig.RunSliceRef},
 			{Name: "mapkeys", Run: brig.RunMapKeys},
